@@ -358,8 +358,9 @@ class IGen:
             data["x"] = "DX"
         if r.random() < 0.4:
             data["y"] = "DY"
-        if r.random() < 0.3:
-            data["a"] = "DA"
+        for nm, pr in (("a", 0.35), ("b", 0.3), ("c", 0.25), ("d", 0.2), ("q1", 0.15)):
+            if r.random() < pr:
+                data[nm] = "D" + nm.upper()
         if r.random() < 0.2:
             data["g"] = "DG"
         if r.random() < self.shadow:
@@ -368,3 +369,42 @@ class IGen:
             data["i"] = "DI"
         return {"templates": templates, "main": "main", "data": data, "env_globals": {"g": "G"},
                 "objects": sorted(self.objects)}
+
+
+def directed_sets():
+    """small-scope family: a statement that hands the current scope to another template, placed BEFORE and AFTER
+    an assignment of a name in the same scope, for every scope kind, with the name present / absent in the render
+    data; and include lists whose later candidate was loaded earlier while the first existing one was not"""
+    out = []
+    probe_t = {"globals": {}, "body": [("o", "("), ("p", "a"), ("p", "b"), ("o", ")"), ("s", "c", ("v", "a"))]}
+    handers = {
+        "inc": lambda: [("i", [("n", "t1")], False, None, False)],
+        "incw": lambda: [("i", [("n", "t1")], False, True, False)],
+        "incl": lambda: [("i", [("n", "nope"), ("n", "t1")], True, None, False)],
+        "imp": lambda: [("I", ("n", "t1"), "m1", True), ("a", "m1", "c")],
+        "from": lambda: [("F", ("n", "t1"), [("c", "q1")], True), ("p", "q1")],
+    }
+    for hk, h in handers.items():
+        for scope in ("top", "f", "w", "m"):
+            for data in ({"a": "DA", "b": "DB"}, {"b": "DB"}, {}):
+                inner = h() + [("s", "a", ("c", "S"))] + h() + [("s", "b", ("c", "T"))] + h()
+                if scope == "top":
+                    body = inner
+                else:
+                    v = {"f": "i", "w": "w", "m": "k"}[scope]
+                    body = [("S", scope, v, ["1", "2"] if scope == "f" else ["1"], inner)] + h()
+                out.append({"templates": {"main": {"globals": {}, "body": body}, "t1": probe_t},
+                            "main": "main", "data": data, "env_globals": {"g": "G"}, "objects": []})
+    # include lists / partially cached candidates: t2 is loaded first (by an include or an import), then a
+    # list [t1, t2] / [nope, t1, t2] must still select t1
+    for first in ([("i", [("n", "t2")], False, None, False)], [("I", ("n", "t2"), "m2", None)],
+                  [("F", ("n", "t2"), [("a", "q2")], None)]):
+        for lst in ([("n", "t1"), ("n", "t2")], [("n", "nope"), ("n", "t1"), ("n", "t2")],
+                    [("n", "t2"), ("n", "t1")], [("n", "nope"), ("n", "t2")]):
+            for wc in (None, False):
+                body = first + [("o", "|"), ("i", lst, True, wc, False), ("o", "|"), ("i", lst, True, wc, True)]
+                out.append({"templates": {"main": {"globals": {}, "body": body},
+                                          "t1": {"globals": {}, "body": [("o", "one"), ("s", "a", ("c", "1"))]},
+                                          "t2": {"globals": {}, "body": [("o", "two"), ("s", "a", ("c", "2"))]}},
+                            "main": "main", "data": {}, "env_globals": {"g": "G"}, "objects": []})
+    return out
